@@ -890,6 +890,11 @@ class PolyhedralTermList(TermList):  # noqa: WPS338
         # 2 : Problem appears to be infeasible.
         # 3 : Problem appears to be unbounded.
         # 4 : Numerical difficulties encountered.
+        if res["status"] == 2:
+            # the solver's presolve reports some feasible, unbounded problems as infeasible: ask again without it
+            res = linprog(
+                c=polarity * obj_mat[0], A_ub=self_mat, b_ub=self_cons, bounds=(None, None), options={"presolve": False}
+            )
         if res["status"] == 3:
             return None
         elif res["status"] == 0:
